@@ -15,6 +15,7 @@ type c08Spec struct {
 	TF     string  `json:"tf"`
 	Typ    string  `json:"typ,omitempty"`    // "" = tagged int64 payload; else boundary-value pass of that type ("mixed" = 3 columns)
 	Create bool    `json:"create,omitempty"` // bucket created explicitly before the first write
+	Big    int     `json:"big,omitempty"` // >0: one request of 2*Big rows: Big intervals in a scrambled order, then all of them again (re-scrambled) with new values
 	Hist   [][]int `json:"hist"`             // requests; each entry = slot*2 + (1 if written at an instant inside the interval)
 }
 
@@ -174,6 +175,13 @@ func c08Enum(c *mc.Ctx, yield func(c08Spec)) {
 			}
 		}
 	}
+	// large requests: more than 100 write commands for one year file in a single flush take the batched
+	// write path (executor/wal.go writeFixedBuffer); every interval is written twice, non-consecutively
+	for _, tf := range []string{"1Min", "1H", "1D"} {
+		for _, n := range []int{55, 110} {
+			yield(c08Spec{TF: tf, Big: n})
+		}
+	}
 	// boundary-value pass: every column type (and a mixed 3-column schema) on 1Min and 1D
 	for _, tf := range []string{"1Min", "1D"} {
 		for _, typ := range append(append([]string{}, allTypes...), "mixed") {
@@ -207,6 +215,10 @@ func c08Run(c *mc.Ctx, s c08Spec) {
 			c.Violate("create-error|"+s.TF, "create failed: "+err.Error())
 			return
 		}
+	}
+	if s.Big > 0 {
+		c08Big(c, w, s, key, tf, slots)
+		return
 	}
 	ref := map[int64]int64{} // interval start (unix) -> value
 	var written []time.Time
@@ -273,6 +285,57 @@ func c08Run(c *mc.Ctx, s c08Spec) {
 	c.Eval(fmt.Sprint(s.TF, s.Hist, s.Create), len(distinctSlots) >= 2 || repeat)
 	c.Outcome(fmt.Sprintf("rows=%d", len(ref)))
 	c.Sample(map[string]any{"tf": s.TF, "history": s.Hist, "expected_rows": len(ref)})
+}
+
+// c08Big: one request that writes Big intervals twice (scrambled orders, different values).
+func c08Big(c *mc.Ctx, w *world.World, s c08Spec, key string, tf time.Duration, slots []time.Time) {
+	n := s.Big
+	base := slots[2] // leap day: far from both year edges
+	var times []time.Time
+	var vals []int64
+	ref := map[int64]int64{}
+	var written []time.Time
+	for pass, mul := range []int{7, 13} { // i -> i*mul mod p is a permutation of 0..p-1 for prime p > mul
+		p := 113
+		for i := 0; i < p; i++ {
+			j := (i * mul) % p
+			if j >= n {
+				continue
+			}
+			t := base.Add(time.Duration(j) * tf)
+			v := int64(pass*1000 + j + 1)
+			times = append(times, t)
+			vals = append(vals, v)
+			ref[t.Unix()] = v
+			written = append(written, t)
+		}
+	}
+	var werr error
+	if pan := world.Safely(func() { werr = w.WriteCS(key, csFixed(times, []string{"V"}, []any{vals}), false) }); pan != "" {
+		c.Violate("panic|write|"+s.TF, "write panicked: "+pan)
+		return
+	}
+	if werr != nil {
+		c.Violate("write-error|"+s.TF+"|"+errClass(werr), fmt.Sprintf("large write request rejected: %v", werr))
+		return
+	}
+	var tab *world.Table
+	var qerr error
+	if pan := world.Safely(func() { tab, qerr = w.QueryAll(key) }); pan != "" {
+		c.Violate("panic|query|"+s.TF, "query panicked: "+pan)
+		return
+	}
+	if qerr != nil {
+		c.Violate("query-error|"+s.TF+"|"+errClass(qerr), "all-time query failed after the large request: "+qerr.Error())
+		return
+	}
+	if sig, what := c08Compare(tab, ref, tf, s.TF, written); sig != "" {
+		c.Violate(sig+"|large-request", fmt.Sprintf("one request writing %d intervals twice (%d rows): %s", n, len(times), what))
+		c.Outcome("differs")
+	}
+	c.Eval(fmt.Sprint(s.TF, "big", n), true)
+	c.Outcome(fmt.Sprintf("rows=%d", len(ref)))
+	c.Sample(map[string]any{"tf": s.TF, "large_request_rows": len(times), "expected_rows": len(ref)})
 }
 
 func c08Compare(tab *world.Table, ref map[int64]int64, tf time.Duration, tfs string, written []time.Time) (string, string) {
